@@ -266,6 +266,8 @@ theorem RInv.step {s s' : State} {e : Ev} (hr : RInv s) (hk : KInv s) (hi : HInv
     intro t m hp0; simp only
     rw [upd2_ne _ _ (by intro x; exact hk.user_ne_lib hk0 hp hp0 x.2.symm)]; exact ⟨hp0, rfl⟩
   | getLocal t' k => obtain ⟨n, _, _, _, _, _, rfl⟩ := getLocal_ok hs; exact ⟨hr.k0n, hr.k0w, hr.tF⟩
+  | createFail a => obtain ⟨_, _, rfl⟩ := createFail_ok hs; exact ⟨hr.k0n, hr.k0w, hr.tF⟩
+  | joinFail a h => obtain ⟨_, _, _, _, _, rfl⟩ := joinFail_ok hs; exact ⟨hr.k0n, hr.k0w, hr.tF⟩
 
 /-- the handle record after the library key's destructor took the thread's own reference -/
 def afterOwn (x : Handle) : Handle :=
@@ -490,6 +492,11 @@ theorem SJInv.step {s s' : State} {e : Ev} (hj : SJInv s) (hs : step s e = .ok s
   | setLocal t k v => obtain ⟨n, _, _, _, _, _, rfl⟩ := setLocal_ok hs; exact hj.frame rfl (Nat.le_refl _) (fun _ _ => rfl)
   | replaceLocal t k v => obtain ⟨n, _, _, _, _, _, rfl⟩ := replaceLocal_ok hs; exact hj.frame rfl (Nat.le_refl _) (fun _ _ => rfl)
   | getLocal t k => obtain ⟨n, _, _, _, _, _, rfl⟩ := getLocal_ok hs; exact hj.frame rfl (Nat.le_refl _) (fun _ _ => rfl)
+  | createFail a =>
+    obtain ⟨_, _, rfl⟩ := createFail_ok hs
+    refine hj.frame rfl (Nat.le_succ _) (fun h hh => ?_)
+    simp only; rw [upd_ne _ _ (by omega)]
+  | joinFail a h => obtain ⟨_, _, _, _, _, rfl⟩ := joinFail_ok hs; exact hj.frame rfl (Nat.le_refl _) (fun _ _ => rfl)
 
 theorem Reach.rinv {s : State} (h : Reach s) : RInv s ∧ SJInv s := by
   induction h with
@@ -659,6 +666,14 @@ theorem refine_join {s s' : State} {sp : S} {a h : Nat} (ab : Abs s sp)
       exact this
     · simp [obsM, PV.UThreadSpec.join, hsp, absH, hj, sortD]
 
+theorem refine_joinFail {s s' : State} {sp : S} {a h : Nat} (ab : Abs s sp)
+    (hs : step s (.joinFail a h) = .ok s') :
+    Abs s' sp ∧ obsM s (.joinFail a h) s' = { ret := [Sp.join sp h], live := liveOf s' } := by
+  obtain ⟨_, hlt, hw, hf, hj, rfl⟩ := joinFail_ok hs
+  have hsp : sp.handles[h]? = some (absH (s.hdl h)) := by rw [ab.aH h, hOf, if_pos hlt]
+  refine ⟨ab.same (fun _ => rfl) rfl (fun _ => rfl) (fun _ => rfl) (fun _ => rfl) (fun _ _ _ => rfl) (fun _ => rfl), ?_⟩
+  simp [obsM, PV.UThreadSpec.join, hsp, absH, hj, sortD]
+
 theorem refine_getLocal {s s' : State} {sp : S} {t k : Nat} (ab : Abs s sp)
     (hs : step s (.getLocal t k) = .ok s') :
     Abs s' sp ∧ obsM s (.getLocal t k) s' = { ret := [(sp.cell t k : Int)], live := liveOf s' } := by
@@ -733,6 +748,31 @@ theorem refine_createBegin {s s' : State} {sp : S} {a : Nat} {j n : Bool} (hk : 
     by_cases e : t = s.nT
     · subst e; simp
     · rw [upd_ne _ _ e, ← ab.aO t]; simp [e]
+
+theorem refine_createFail {s s' : State} {sp : S} {a : Nat} (hi : HInv s) (ab : Abs s sp)
+    (hs : step s (.createFail a) = .ok s') :
+    Abs s' (createFailed sp).1 ∧
+    obsM s (.createFail a) s' = { live := liveOf s', freed := [(createFailed sp).2] } := by
+  obtain ⟨_, _, rfl⟩ := createFail_ok hs
+  have hnewH := hi.hB s.nH (Nat.le_refl _)
+  refine ⟨?_, by simp [obsM, createFailed, ab.hlen, sortD]⟩
+  refine ⟨?_, by simp [createFailed, ab.aT], ?_, ?_, ab.aK, ab.aC, ab.aF⟩
+  · intro h
+    simp only [createFailed]
+    rw [getElem?_snoc, ab.hlen, ab.aH h]
+    unfold hOf; simp only
+    by_cases e : h < s.nH
+    · rw [if_pos e, if_pos e, if_pos (by omega), upd_ne _ _ (by omega)]
+    · rw [if_neg e]; try rw [if_neg e]
+      by_cases e' : h = s.nH
+      · subst e'; simp [absH]
+      · rw [if_neg e', if_neg (by omega)]
+  · intro t
+    rw [show lookup (createFailed sp).1.threadHandle t = lookup sp.threadHandle t from rfl, ab.aS t]
+    symm
+    exact selfOf_thr_eq t rfl (fun _ => Iff.rfl) (fun _ => ⟨rfl, fun _ _ => rfl⟩)
+  · intro t
+    rw [show (createFailed sp).1.ours = sp.ours from rfl, ab.aO t]
 
 theorem refine_localNew {s s' : State} {sp : S} {a : Nat} {nf : Bool} (hk : KInv s) (hi : HInv s) (ab : Abs s sp)
     (hs : step s (.localNew a nf) = .ok s') :
@@ -1400,6 +1440,8 @@ theorem refine_step {s s' : State} {sp : S} {e : Ev} (hr : Reach s) (ab : Abs s 
   | setLocal t k v => obtain ⟨a, o⟩ := refine_setLocal hk ab hs; exact ⟨a, by rw [o]; simp [specStep, a.live]⟩
   | replaceLocal t k v => obtain ⟨a, o⟩ := refine_replaceLocal hk ab hs; exact ⟨a, by rw [o]; simp [specStep, a.live]⟩
   | getLocal t k => obtain ⟨a, o⟩ := refine_getLocal ab hs; exact ⟨a, by rw [o]; simp [specStep, a.live]⟩
+  | createFail a' => obtain ⟨a, o⟩ := refine_createFail hi ab hs; exact ⟨a, by rw [o]; simp [specStep, a.live]⟩
+  | joinFail a' h => obtain ⟨a, o⟩ := refine_joinFail ab hs; exact ⟨a, by rw [o]; simp [specStep, a.live]⟩
 
 /-- over any history: as long as the machine accepts the events, the reference gives the same answers -/
 theorem refine_run : ∀ (es : List Ev) {s : State} {sp : S}, Reach s → Abs s sp →
